@@ -273,3 +273,573 @@ Proof.
                   cbn [path_code Z.eqb Pos.eqb]; rewrite ?Hb; auto|]
                | progress (fs_simpl; rewrite ?Hb; fs_simpl)].
 Qed.
+
+Lemma exec_not_failed l : forall fs f, run l fs <> None -> final_oc (exec l fs f) <> Failed.
+Proof.
+  induction l as [|s l IH]; intros fs f; [cbn; discriminate|].
+  cbn [exec run].
+  destruct (effect fs s) as [fs'|] eqn:Ee; [|congruence].
+  intros Hr.
+  destruct (fires fs s) eqn:Ef, f as [[|n]|]; cbn [final_oc fst snd]; try discriminate;
+    match goal with |- context [exec l fs' ?g] =>
+      specialize (IH fs' g Hr); destruct (exec l fs' g) as [[a b] t]; cbn in *; exact IH end.
+Qed.
+
+Lemma open_tmp_rel fs0 p : body_rel p fs0 (upd fs0 p (Partial 0)).
+Proof.
+  split.
+  - intros q Hq. unfold upd. now rewrite Hq.
+  - right. exists 0. unfold upd, path_eqb. now rewrite Z.eqb_refl.
+Qed.
+
+Lemma cQ_of_rel r c keep fs0 x :
+  fs0 PBin = Complete (Orig r) -> body_rel PCbinTmp fs0 x -> cQ r c keep fs0 x.
+Proof.
+  intros Hsrc [Ho _]. unfold cQ.
+  rewrite (Ho PCbin eq_refl), (Ho PBin eq_refl).
+  split; [auto|split; [auto|]].
+  intros q Hq. apply Ho. others_cases Hq; reflexivity.
+Qed.
+
+Lemma body_rel_trans p a b c : body_rel p a b -> body_rel p b c -> body_rel p a c.
+Proof.
+  intros [H1 H1'] [H2 H2']. split.
+  - intros q Hq. rewrite (H2 q Hq). apply H1, Hq.
+  - destruct H2' as [E|[j E]]; [rewrite E; exact H1'|right; eauto].
+Qed.
+
+Lemma compress_reach r c m B keep chk fs0 :
+  fs0 PBin = Complete (Orig r) ->
+  Forall (cQ r c keep fs0) (reach (compress_steps r c m B keep chk) fs0).
+Proof.
+  intros Hsrc. rewrite compress_steps_split.
+  apply reach_app_forall.
+  - cbn [reach effect].
+    apply Forall_cons; [apply cQ_of_rel; auto using body_rel_refl|].
+    apply Forall_cons; [apply cQ_of_rel; auto using open_tmp_rel|apply Forall_nil].
+  - intros fs1 H1. cbn in H1. inversion H1; subst fs1; clear H1.
+    pose proof (open_tmp_rel fs0 PCbinTmp) as R1.
+    set (fs1 := upd fs0 PCbinTmp (Partial 0)) in *.
+    apply reach_app_forall.
+    + eapply Forall_impl;
+        [|apply (body_reach PCbinTmp _ (batches_body _ m B) fs1 fs1 (body_rel_refl _ _))].
+      intros x Hx. apply cQ_of_rel; [exact Hsrc|]. eapply body_rel_trans; eauto.
+    + intros fs2 H2.
+      destruct (body_run PCbinTmp _ (batches_body _ m B) fs1 fs1 (body_rel_refl _ _)) as [x' [Hx' R2]].
+      rewrite H2 in Hx'. inversion Hx'; subst x'; clear Hx'.
+      apply compress_tail_reach; [exact Hsrc|].
+      intros q Hq. destruct (body_rel_trans _ _ _ _ R1 R2) as [Ho _]. apply Ho, Hq.
+Qed.
+
+Lemma compress_run r c m B keep chk fs0 :
+  fs0 PBin = Complete (Orig r) ->
+  exists fsf, run (compress_steps r c m B keep chk) fs0 = Some fsf /\
+    fsf PCbin = Complete (Comp r c) /\ fsf PCh = Complete (Hdr r c) /\
+    fsf PCbinTmp = Absent /\
+    fsf PBin = (if keep then Complete (Orig r) else Absent).
+Proof.
+  intros Hsrc. rewrite compress_steps_split, run_app. cbn [run effect].
+  rewrite run_app.
+  destruct (body_run PCbinTmp _ (batches_body _ m B) _ _ (open_tmp_rel fs0 PCbinTmp)) as [fs2 [H2 [Ho _]]].
+  rewrite H2. apply compress_tail_run. rewrite (Ho PBin eq_refl). exact Hsrc.
+Qed.
+
+Lemma compress_order r c m B keep chk fs0 :
+  fs0 PBin = Complete (Orig r) ->
+  Forall (c_order r c) (pre_steps (compress_steps r c m B keep chk) fs0).
+Proof.
+  intros Hsrc. rewrite compress_steps_split.
+  apply pre_steps_app_forall.
+  - cbn. apply Forall_cons; [|apply Forall_nil]. split; intros Hs; discriminate Hs.
+  - intros fs1 H1. cbn in H1. inversion H1; subst fs1; clear H1.
+    apply pre_steps_app_forall.
+    + eapply Forall_impl; [|apply (body_pre_steps PCbinTmp _ (batches_body _ m B))].
+      intros [x s] Hs. cbn in Hs. unfold c_order.
+      destruct Hs as [[k ->]|[k ->]]; split; intros E; discriminate E.
+    + intros fs2 H2.
+      destruct (body_run PCbinTmp _ (batches_body _ m B) _ _ (open_tmp_rel fs0 PCbinTmp)) as [x' [Hx' [Ho _]]].
+      rewrite H2 in Hx'. inversion Hx'; subst x'; clear Hx'.
+      apply compress_tail_order. rewrite (Ho PBin eq_refl). exact Hsrc.
+Qed.
+
+(* the public statement *)
+Lemma compress_atomic r c m B keep chk fs0 fault :
+  fs0 PBin = Complete (Orig r) ->
+  let res := exec (compress_steps r c m B keep chk) fs0 fault in
+  let fs' := final_fs res in
+  (fs' PCbin = fs0 PCbin \/ fs' PCbin = Complete (Comp r c)) /\
+  (fs' PBin = Complete (Orig r) \/
+   (keep = false /\ fs' PBin = Absent /\
+    fs' PCbin = Complete (Comp r c) /\ fs' PCh = Complete (Hdr r c))) /\
+  (forall q, In q others -> fs' q = fs0 q) /\
+  (final_oc res = Done ->
+     fs' PCbin = Complete (Comp r c) /\ fs' PCh = Complete (Hdr r c) /\
+     fs' PCbinTmp = Absent /\ fs' PBin = (if keep then Complete (Orig r) else Absent)) /\
+  (fault = None -> final_oc res = Done) /\
+  final_oc res <> Failed.
+Proof.
+  intros Hsrc res fs'.
+  pose proof (compress_reach r c m B keep chk fs0 Hsrc) as HR.
+  rewrite Forall_forall in HR.
+  destruct (HR fs' (exec_final_in_reach _ _ _)) as [Ha [Hb Hc]].
+  destruct (compress_run r c m B keep chk fs0 Hsrc) as [fsf [Hrun Hf]].
+  split; [exact Ha|split; [exact Hb|split; [exact Hc|split; [|split]]]].
+  - intros H. pose proof (exec_done_run _ _ _ H) as E. fold res fs' in E. rewrite Hrun in E.
+    inversion E as [E1]. rewrite <- E1. exact Hf.
+  - intros ->. unfold res. rewrite (exec_nofault _ _ _ Hrun). reflexivity.
+  - apply exec_not_failed. rewrite Hrun. discriminate.
+Qed.
+
+Lemma compress_inplace_order r c m B keep chk fs0 fault :
+  fs0 PBin = Complete (Orig r) ->
+  Forall (c_order r c) (final_tr (exec (compress_steps r c m B keep chk) fs0 fault)).
+Proof.
+  intros Hsrc. apply Forall_forall. intros e He.
+  pose proof (compress_order r c m B keep chk fs0 Hsrc) as HO. rewrite Forall_forall in HO.
+  apply HO. eapply exec_trace_incl; eauto.
+Qed.
+
+(* ---- decompress_file ---- *)
+Definition out_ok (out : path) : bool :=
+  match out with PBin | PBinTmp | PSBinTmp => true | _ => false end.
+
+Definition dQ (r c : Z) (keep : bool) (out : path) (fs0 x : fsys) : Prop :=
+  ((x PCbin = Complete (Comp r c) /\ x PCh = Complete (Hdr r c)) \/
+   (keep = false /\ x out = Complete (Orig r) /\ x PCbin = Absent /\
+    (x PCh = Complete (Hdr r c) \/ x PCh = Absent))) /\
+  (forall q, path_eqb q out = false -> path_eqb q PCbin = false -> path_eqb q PCh = false ->
+             x q = fs0 q).
+
+Definition decompress_head (out : path) (ow : bool) : list step :=
+  [SReadOpen PCh; SReadOpen PCbin;
+   (if ow then SUnlinkIfExists out else SRequireAbsent out); SOpenW out].
+Definition decompress_tail (r c : Z) (out : path) (keep chk : bool) : list step :=
+  [SClose out (Orig r)] ++
+  (if chk then [SVerify PCbin PCh out r c] else []) ++
+  (if keep then [] else [SUnlink PCbin; SUnlink PCh]).
+
+Lemma decompress_steps_split r c m B out keep chk ow :
+  decompress_steps r c m B out keep chk ow =
+  decompress_head out ow ++ batches out m B ++ decompress_tail r c out keep chk.
+Proof. reflexivity. Qed.
+
+Definition same_but (p : path) (fs x : fsys) : Prop :=
+  forall q, path_eqb q p = false -> x q = fs q.
+
+Lemma same_but_refl p fs : same_but p fs fs.
+Proof. intros q _. reflexivity. Qed.
+Lemma same_but_upd p fs x v : same_but p fs x -> same_but p fs (upd x p v).
+Proof. intros H q Hq. unfold upd. rewrite Hq. apply H, Hq. Qed.
+Lemma same_but_trans p a b c : same_but p a b -> same_but p b c -> same_but p a c.
+Proof. intros H1 H2 q Hq. rewrite (H2 q Hq). apply H1, Hq. Qed.
+Lemma body_rel_same p fs x : body_rel p fs x -> same_but p fs x.
+Proof. intros [H _]. exact H. Qed.
+
+Lemma dQ_of_same r c keep out fs0 x :
+  out_ok out = true ->
+  fs0 PCbin = Complete (Comp r c) -> fs0 PCh = Complete (Hdr r c) ->
+  same_but out fs0 x -> dQ r c keep out fs0 x.
+Proof.
+  intros Hout Hc Hh Ho. unfold dQ. split.
+  - left. rewrite (Ho PCbin), (Ho PCh); [auto| |]; destruct out; try discriminate; reflexivity.
+  - intros q Hq _ _. apply Ho, Hq.
+Qed.
+
+Lemma decompress_head_reach r c out ow fs0 :
+  fs0 PCbin = Complete (Comp r c) -> fs0 PCh = Complete (Hdr r c) ->
+  Forall (same_but out fs0) (reach (decompress_head out ow) fs0).
+Proof.
+  intros Hc Hh. unfold decompress_head. repeat progress (cbn [reach effect present]; rewrite ?Hc, ?Hh).
+  apply Forall_cons; [apply same_but_refl|].
+  apply Forall_cons; [apply same_but_refl|].
+  apply Forall_cons; [apply same_but_refl|].
+  destruct ow; cbn [effect].
+  - apply Forall_cons; [apply same_but_upd, same_but_refl|].
+    apply Forall_cons; [apply same_but_upd, same_but_upd, same_but_refl|apply Forall_nil].
+  - destruct (present (fs0 out)); [apply Forall_nil|].
+    apply Forall_cons; [apply same_but_refl|].
+    apply Forall_cons; [apply same_but_upd, same_but_refl|apply Forall_nil].
+Qed.
+
+Lemma decompress_head_run r c out ow fs0 fs1 :
+  fs0 PCbin = Complete (Comp r c) -> fs0 PCh = Complete (Hdr r c) ->
+  run (decompress_head out ow) fs0 = Some fs1 ->
+  same_but out fs0 fs1 /\ fs1 out = Partial 0.
+Proof.
+  intros Hc Hh. unfold decompress_head. repeat progress (cbn [run effect present]; rewrite ?Hc, ?Hh).
+  destruct ow; cbn [effect].
+  - intros E. inversion E. split; [apply same_but_upd, same_but_upd, same_but_refl|].
+    unfold upd, path_eqb. now rewrite Z.eqb_refl.
+  - destruct (present (fs0 out)); [discriminate|].
+    intros E. inversion E. split; [apply same_but_upd, same_but_refl|].
+    unfold upd, path_eqb. now rewrite Z.eqb_refl.
+Qed.
+
+Lemma decompress_head_total r c out ow fs0 :
+  fs0 PCbin = Complete (Comp r c) -> fs0 PCh = Complete (Hdr r c) ->
+  (ow = true \/ present (fs0 out) = false) ->
+  exists fs1, run (decompress_head out ow) fs0 = Some fs1.
+Proof.
+  intros Hc Hh Hg. unfold decompress_head. repeat progress (cbn [run effect present]; rewrite ?Hc, ?Hh).
+  destruct ow; cbn [effect]; [eauto|].
+  destruct Hg as [Hg|Hg]; [discriminate|]. rewrite Hg. eauto.
+Qed.
+
+Ltac solve_dQ Hc Hh Ho :=
+  unfold dQ; cbn [path_code Z.eqb Pos.eqb]; rewrite ?Hc, ?Hh;
+  split; [auto 8|
+          intros q Hq1 Hq2 Hq3; unfold path_eqb in Hq1, Hq2, Hq3; cbn [path_code] in Hq1, Hq2, Hq3;
+          rewrite ?Hq1, ?Hq2, ?Hq3; apply Ho; unfold path_eqb; cbn [path_code]; assumption].
+
+Lemma decompress_tail_reach r c out keep chk fs0 fs2 :
+  out_ok out = true ->
+  fs0 PCbin = Complete (Comp r c) -> fs0 PCh = Complete (Hdr r c) ->
+  same_but out fs0 fs2 ->
+  Forall (dQ r c keep out fs0) (reach (decompress_tail r c out keep chk) fs2).
+Proof.
+  intros Hout Hc0 Hh0 Ho.
+  assert (Hc : fs2 PCbin = Complete (Comp r c)).
+  { rewrite (Ho PCbin); [auto|]. destruct out; try discriminate; reflexivity. }
+  assert (Hh : fs2 PCh = Complete (Hdr r c)).
+  { rewrite (Ho PCh); [auto|]. destruct out; try discriminate; reflexivity. }
+  unfold decompress_tail.
+  destruct out; try discriminate Hout; destruct chk, keep; cbn [app reach effect];
+  repeat progress (fs_simpl; rewrite ?Hc, ?Hh);
+  repeat first [apply Forall_nil | apply Forall_cons; [solve_dQ Hc Hh Ho|]
+               | progress (fs_simpl; rewrite ?Hc, ?Hh; fs_simpl)].
+Qed.
+
+Lemma decompress_tail_run r c out keep chk fs2 :
+  out_ok out = true ->
+  fs2 PCbin = Complete (Comp r c) -> fs2 PCh = Complete (Hdr r c) ->
+  exists fsf, run (decompress_tail r c out keep chk) fs2 = Some fsf /\
+    fsf out = Complete (Orig r) /\
+    fsf PCbin = (if keep then Complete (Comp r c) else Absent) /\
+    fsf PCh = (if keep then Complete (Hdr r c) else Absent).
+Proof.
+  intros Hout Hc Hh. unfold decompress_tail.
+  destruct out; try discriminate Hout; destruct chk, keep; cbn [app run effect];
+    repeat progress (fs_simpl; rewrite ?Hc, ?Hh);
+    eexists; (split; [reflexivity|]); cbn [path_code Z.eqb Pos.eqb]; rewrite ?Hc, ?Hh; auto.
+Qed.
+
+(* the compressed source is unlinked only when the decompressed file is complete *)
+Definition d_order (r : Z) (out : path) (e : fsys * step) : Prop :=
+  let '(x, s) := e in
+  (s = SUnlink PCbin \/ s = SUnlink PCh) -> x out = Complete (Orig r).
+
+Lemma decompress_tail_order r c out keep chk fs2 :
+  out_ok out = true ->
+  fs2 PCbin = Complete (Comp r c) -> fs2 PCh = Complete (Hdr r c) ->
+  Forall (d_order r out) (pre_steps (decompress_tail r c out keep chk) fs2).
+Proof.
+  intros Hout Hc Hh. unfold decompress_tail.
+  destruct out; try discriminate Hout; destruct chk, keep; cbn [app pre_steps effect];
+  repeat progress (fs_simpl; rewrite ?Hc, ?Hh);
+  repeat first [apply Forall_nil
+               | apply Forall_cons;
+                 [unfold d_order; intros [Hs|Hs]; try discriminate Hs;
+                  cbn [path_code Z.eqb Pos.eqb]; auto|]
+               | progress (fs_simpl; rewrite ?Hc, ?Hh; fs_simpl)].
+Qed.
+
+Lemma out_ok_src out : out_ok out = true -> path_eqb PCbin out = false /\ path_eqb PCh out = false.
+Proof. destruct out; try discriminate; auto. Qed.
+
+Lemma decompress_reach r c m B out keep chk ow fs0 :
+  out_ok out = true ->
+  fs0 PCbin = Complete (Comp r c) -> fs0 PCh = Complete (Hdr r c) ->
+  Forall (dQ r c keep out fs0) (reach (decompress_steps r c m B out keep chk ow) fs0).
+Proof.
+  intros Hout Hc Hh. rewrite decompress_steps_split.
+  apply reach_app_forall.
+  - eapply Forall_impl; [|apply (decompress_head_reach r c out ow fs0 Hc Hh)].
+    intros x Hx. apply dQ_of_same; auto.
+  - intros fs1 H1. destruct (decompress_head_run r c out ow fs0 fs1 Hc Hh H1) as [S1 _].
+    apply reach_app_forall.
+    + eapply Forall_impl;
+        [|apply (body_reach out _ (batches_body _ m B) fs1 fs1 (body_rel_refl _ _))].
+      intros x Hx. apply dQ_of_same; auto.
+      eapply same_but_trans; [exact S1|apply body_rel_same, Hx].
+    + intros fs2 H2.
+      destruct (body_run out _ (batches_body _ m B) fs1 fs1 (body_rel_refl _ _)) as [x' [Hx' R2]].
+      rewrite H2 in Hx'. inversion Hx'; subst x'; clear Hx'.
+      apply decompress_tail_reach; auto.
+      eapply same_but_trans; [exact S1|apply body_rel_same, R2].
+Qed.
+
+Lemma decompress_run r c m B out keep chk ow fs0 :
+  out_ok out = true ->
+  fs0 PCbin = Complete (Comp r c) -> fs0 PCh = Complete (Hdr r c) ->
+  (ow = true \/ present (fs0 out) = false) ->
+  exists fsf, run (decompress_steps r c m B out keep chk ow) fs0 = Some fsf /\
+    fsf out = Complete (Orig r) /\
+    fsf PCbin = (if keep then Complete (Comp r c) else Absent) /\
+    fsf PCh = (if keep then Complete (Hdr r c) else Absent).
+Proof.
+  intros Hout Hc Hh Hg. rewrite decompress_steps_split, run_app.
+  destruct (decompress_head_total r c out ow fs0 Hc Hh Hg) as [fs1 H1]. rewrite H1.
+  destruct (decompress_head_run r c out ow fs0 fs1 Hc Hh H1) as [S1 _].
+  rewrite run_app.
+  destruct (body_run out _ (batches_body _ m B) fs1 fs1 (body_rel_refl _ _)) as [fs2 [H2 R2]].
+  rewrite H2.
+  pose proof (same_but_trans _ _ _ _ S1 (body_rel_same _ _ _ R2)) as S2.
+  destruct (out_ok_src out Hout) as [E1 E2].
+  apply decompress_tail_run; [exact Hout| |]; [rewrite (S2 PCbin E1)|rewrite (S2 PCh E2)]; auto.
+Qed.
+
+Lemma decompress_order r c m B out keep chk ow fs0 :
+  out_ok out = true ->
+  fs0 PCbin = Complete (Comp r c) -> fs0 PCh = Complete (Hdr r c) ->
+  Forall (d_order r out) (pre_steps (decompress_steps r c m B out keep chk ow) fs0).
+Proof.
+  intros Hout Hc Hh. rewrite decompress_steps_split.
+  assert (Hnu : forall (P : Prop) s, (forall p, s <> SUnlink p) ->
+                 ((s = SUnlink PCbin \/ s = SUnlink PCh) -> P)).
+  { intros P s Hs [E|E]; exfalso; eapply Hs; eauto. }
+  apply pre_steps_app_forall.
+  - unfold decompress_head.
+    assert (Hall : forall l x, Forall (fun s => forall p, s <> SUnlink p) l ->
+              Forall (d_order r out) (pre_steps l x)).
+    { induction l as [|s l IH]; intros x Hl; cbn; [constructor|].
+      inversion Hl; subst. destruct (effect x s); constructor; auto.
+      unfold d_order. apply Hnu. assumption. }
+    apply Hall. destruct ow; repeat constructor; intros p E; discriminate E.
+  - intros fs1 H1. destruct (decompress_head_run r c out ow fs0 fs1 Hc Hh H1) as [S1 _].
+    apply pre_steps_app_forall.
+    + eapply Forall_impl; [|apply (body_pre_steps out _ (batches_body _ m B))].
+      intros [x s] Hs. cbn in Hs. unfold d_order. apply Hnu.
+      destruct Hs as [[k ->]|[k ->]]; intros p E; discriminate E.
+    + intros fs2 H2.
+      destruct (body_run out _ (batches_body _ m B) fs1 fs1 (body_rel_refl _ _)) as [x' [Hx' R2]].
+      rewrite H2 in Hx'. inversion Hx'; subst x'; clear Hx'.
+      pose proof (same_but_trans _ _ _ _ S1 (body_rel_same _ _ _ R2)) as S2.
+      destruct (out_ok_src out Hout) as [E1 E2].
+      apply decompress_tail_order; [exact Hout| |]; [rewrite (S2 PCbin E1)|rewrite (S2 PCh E2)]; auto.
+Qed.
+
+(* ---- decompress_to_scratch ---- *)
+Definition sQ (r c : Z) (sd : bool) (fs0 x : fsys) : Prop :=
+  x PCbin = Complete (Comp r c) /\ x PCh = Complete (Hdr r c) /\
+  (x (scratch_target sd) = fs0 (scratch_target sd) \/
+   x (scratch_target sd) = Complete (Orig r)) /\
+  (forall q, path_eqb q (scratch_target sd) = false -> path_eqb q (scratch_tmp sd) = false ->
+             path_eqb q PSMeta = false -> x q = fs0 q).
+
+Lemma scratch_tmp_ok sd : out_ok (scratch_tmp sd) = true.
+Proof. destruct sd; reflexivity. Qed.
+
+Lemma sQ_of_dQ r c sd fs0 fs1 x :
+  fs0 PCbin = Complete (Comp r c) -> fs0 PCh = Complete (Hdr r c) ->
+  same_but PSMeta fs0 fs1 ->
+  dQ r c true (scratch_tmp sd) fs1 x -> sQ r c sd fs0 x.
+Proof.
+  intros Hc Hh S1 [[[Dc Dh]|[E _]] Do]; [|discriminate E].
+  unfold sQ. split; [exact Dc|split; [exact Dh|split]].
+  - left. rewrite Do; [apply S1| | |]; destruct sd; reflexivity.
+  - intros q Q1 Q2 Q3.
+    destruct (path_eqb q PCbin) eqn:E1.
+    { unfold path_eqb in E1. apply Z.eqb_eq in E1. destruct q; try discriminate E1. congruence. }
+    destruct (path_eqb q PCh) eqn:E2.
+    { unfold path_eqb in E2. apply Z.eqb_eq in E2. destruct q; try discriminate E2. congruence. }
+    rewrite Do; auto.
+Qed.
+
+Lemma scratch_reach r c m B sd fs0 :
+  fs0 PCbin = Complete (Comp r c) -> fs0 PCh = Complete (Hdr r c) ->
+  Forall (sQ r c sd fs0) (reach (scratch_steps fs0 r c m B sd) fs0).
+Proof.
+  intros Hc Hh. unfold scratch_steps.
+  assert (Hbase : forall fs1, same_but PSMeta fs0 fs1 -> sQ r c sd fs0 fs1).
+  { intros fs1 S1. unfold sQ. rewrite (S1 PCbin eq_refl), (S1 PCh eq_refl).
+    split; [auto|split; [auto|split]].
+    - left. apply S1. destruct sd; reflexivity.
+    - intros q _ _ Q3. apply S1, Q3. }
+  assert (Hmain : forall fs1, same_but PSMeta fs0 fs1 ->
+     Forall (sQ r c sd fs0)
+       (reach (if present (fs0 (scratch_target sd)) then []
+               else decompress_steps r c m B (scratch_tmp sd) true false true ++
+                    [SRename (scratch_tmp sd) (scratch_target sd)]) fs1)).
+  { intros fs1 S1.
+    destruct (present (fs0 (scratch_target sd))).
+    { cbn. apply Forall_cons; [apply Hbase, S1|apply Forall_nil]. }
+    assert (Hc1 : fs1 PCbin = Complete (Comp r c)) by (rewrite (S1 PCbin eq_refl); exact Hc).
+    assert (Hh1 : fs1 PCh = Complete (Hdr r c)) by (rewrite (S1 PCh eq_refl); exact Hh).
+    apply reach_app_forall.
+    - eapply Forall_impl; [|apply (decompress_reach r c m B _ true false true fs1 (scratch_tmp_ok sd) Hc1 Hh1)].
+      intros x Hx. eapply sQ_of_dQ; eauto.
+    - intros fs2 H2.
+      destruct (decompress_run r c m B _ true false true fs1 (scratch_tmp_ok sd) Hc1 Hh1 (or_introl eq_refl))
+        as [fsf [Hrun [Ft [Fc Fh]]]].
+      rewrite H2 in Hrun. inversion Hrun; subst fsf; clear Hrun.
+      pose proof (decompress_reach r c m B _ true false true fs1 (scratch_tmp_ok sd) Hc1 Hh1) as HR.
+      rewrite Forall_forall in HR.
+      assert (Hin : In fs2 (reach (decompress_steps r c m B (scratch_tmp sd) true false true) fs1)).
+      { pose proof (exec_final_in_reach (decompress_steps r c m B (scratch_tmp sd) true false true) fs1 None) as Hi.
+        rewrite (exec_nofault _ _ _ H2) in Hi. exact Hi. }
+      pose proof (sQ_of_dQ r c sd fs0 fs1 fs2 Hc Hh S1 (HR _ Hin)) as [Q1 [Q2 [Q3 Q4]]].
+      cbn [reach effect]. rewrite Ft. cbn [present].
+      apply Forall_cons; [unfold sQ; auto|].
+      apply Forall_cons; [|apply Forall_nil].
+      unfold sQ. destruct sd; cbn [scratch_target scratch_tmp] in *; fs_simpl;
+        (split; [exact Q1|split; [exact Q2|split; [right; first [exact Ft|reflexivity]|]]]);
+        intros q A1 A2 A3; unfold path_eqb in A1, A2; cbn [path_code] in A1, A2;
+        rewrite A1, A2; apply Q4; auto. }
+  destruct sd.
+  - apply reach_app_forall.
+    + cbn [reach effect]. apply Forall_cons; [apply Hbase, same_but_refl|].
+      destruct (present (fs0 PMeta)); [|apply Forall_nil].
+      apply Forall_cons; [apply Hbase, same_but_upd, same_but_refl|apply Forall_nil].
+    + intros fs1 H1. cbn [run effect] in H1.
+      destruct (present (fs0 PMeta)); [|discriminate]. inversion H1; subst fs1.
+      apply Hmain, same_but_upd, same_but_refl.
+  - cbn [app]. apply Hmain, same_but_refl.
+Qed.
+
+Lemma scratch_run r c m B sd fs0 :
+  fs0 PCbin = Complete (Comp r c) -> fs0 PCh = Complete (Hdr r c) ->
+  (sd = true -> present (fs0 PMeta) = true) ->
+  exists fsf, run (scratch_steps fs0 r c m B sd) fs0 = Some fsf /\
+    fsf (scratch_target sd) =
+      (if present (fs0 (scratch_target sd)) then fs0 (scratch_target sd) else Complete (Orig r)) /\
+    (present (fs0 (scratch_target sd)) = false -> fsf (scratch_tmp sd) = Absent).
+Proof.
+  intros Hc Hh Hm. unfold scratch_steps.
+  assert (Hmain : forall fs1, same_but PSMeta fs0 fs1 ->
+    exists fsf, run (if present (fs0 (scratch_target sd)) then []
+               else decompress_steps r c m B (scratch_tmp sd) true false true ++
+                    [SRename (scratch_tmp sd) (scratch_target sd)]) fs1 = Some fsf /\
+      fsf (scratch_target sd) =
+        (if present (fs0 (scratch_target sd)) then fs0 (scratch_target sd) else Complete (Orig r)) /\
+      (present (fs0 (scratch_target sd)) = false -> fsf (scratch_tmp sd) = Absent)).
+  { intros fs1 S1.
+    destruct (present (fs0 (scratch_target sd))) eqn:Ep.
+    { cbn. eexists; split; [reflexivity|split; [|discriminate]]. apply S1. destruct sd; reflexivity. }
+    assert (Hc1 : fs1 PCbin = Complete (Comp r c)) by (rewrite (S1 PCbin eq_refl); exact Hc).
+    assert (Hh1 : fs1 PCh = Complete (Hdr r c)) by (rewrite (S1 PCh eq_refl); exact Hh).
+    destruct (decompress_run r c m B _ true false true fs1 (scratch_tmp_ok sd) Hc1 Hh1 (or_introl eq_refl))
+      as [fs2 [Hrun [Ft _]]].
+    rewrite run_app, Hrun. cbn [run effect]. rewrite Ft. cbn [present].
+    eexists; split; [reflexivity|]. destruct sd; cbn [scratch_target scratch_tmp]; fs_simpl; auto. }
+  destruct sd.
+  - rewrite run_app. cbn [run effect]. rewrite (Hm eq_refl).
+    apply Hmain, same_but_upd, same_but_refl.
+  - cbn [app]. apply Hmain, same_but_refl.
+Qed.
+
+Lemma scratch_atomic r c m B sd fs0 fault :
+  fs0 PCbin = Complete (Comp r c) -> fs0 PCh = Complete (Hdr r c) ->
+  (sd = true -> present (fs0 PMeta) = true) ->
+  let res := exec (scratch_steps fs0 r c m B sd) fs0 fault in
+  let fs' := final_fs res in
+  sQ r c sd fs0 fs' /\
+  (final_oc res = Done ->
+     fs' (scratch_target sd) =
+       (if present (fs0 (scratch_target sd)) then fs0 (scratch_target sd) else Complete (Orig r)) /\
+     (present (fs0 (scratch_target sd)) = false -> fs' (scratch_tmp sd) = Absent)) /\
+  (fault = None -> final_oc res = Done) /\
+  final_oc res <> Failed.
+Proof.
+  intros Hc Hh Hm res fs'.
+  pose proof (scratch_reach r c m B sd fs0 Hc Hh) as HR. rewrite Forall_forall in HR.
+  destruct (scratch_run r c m B sd fs0 Hc Hh Hm) as [fsf [Hrun Hf]].
+  split; [apply HR, exec_final_in_reach|split; [|split]].
+  - intros H. pose proof (exec_done_run _ _ _ H) as E. fold res fs' in E. rewrite Hrun in E.
+    inversion E as [E1]. rewrite <- E1. exact Hf.
+  - intros ->. unfold res. rewrite (exec_nofault _ _ _ Hrun). reflexivity.
+  - apply exec_not_failed. rewrite Hrun. discriminate.
+Qed.
+
+(* public statement for decompress_file *)
+Lemma decompress_atomic r c m B out keep chk ow fs0 fault :
+  out_ok out = true ->
+  fs0 PCbin = Complete (Comp r c) -> fs0 PCh = Complete (Hdr r c) ->
+  let res := exec (decompress_steps r c m B out keep chk ow) fs0 fault in
+  let fs' := final_fs res in
+  dQ r c keep out fs0 fs' /\
+  (final_oc res = Done ->
+     fs' out = Complete (Orig r) /\
+     fs' PCbin = (if keep then Complete (Comp r c) else Absent) /\
+     fs' PCh = (if keep then Complete (Hdr r c) else Absent)) /\
+  (fault = None -> (ow = true \/ present (fs0 out) = false) -> final_oc res = Done) /\
+  Forall (d_order r out) (final_tr res).
+Proof.
+  intros Hout Hc Hh res fs'.
+  pose proof (decompress_reach r c m B out keep chk ow fs0 Hout Hc Hh) as HR.
+  rewrite Forall_forall in HR.
+  split; [apply HR, exec_final_in_reach|split; [|split]].
+  - intros H. pose proof (exec_done_run _ _ _ H) as E. fold res fs' in E.
+    pose proof (decompress_reach r c m B out keep chk ow fs0 Hout Hc Hh) as HR2.
+    (* Done means the fault-free tail was executed: recompute through run *)
+    rewrite decompress_steps_split, run_app in E.
+    destruct (run (decompress_head out ow) fs0) as [fs1|] eqn:H1; [|discriminate].
+    destruct (decompress_head_run r c out ow fs0 fs1 Hc Hh H1) as [S1 _].
+    rewrite run_app in E.
+    destruct (body_run out _ (batches_body _ m B) fs1 fs1 (body_rel_refl _ _)) as [fs2 [H2 R2]].
+    rewrite H2 in E.
+    pose proof (same_but_trans _ _ _ _ S1 (body_rel_same _ _ _ R2)) as S2.
+    destruct (out_ok_src out Hout) as [E1 E2].
+    destruct (decompress_tail_run r c out keep chk fs2 Hout) as [fsf [Hrun Hf]];
+      [rewrite (S2 PCbin E1); exact Hc|rewrite (S2 PCh E2); exact Hh|].
+    rewrite Hrun in E. inversion E as [E3]. rewrite <- E3. exact Hf.
+  - intros -> Hg. destruct (decompress_run r c m B out keep chk ow fs0 Hout Hc Hh Hg) as [fsf [Hrun _]].
+    unfold res. rewrite (exec_nofault _ _ _ Hrun). reflexivity.
+  - apply Forall_forall. intros e He.
+    pose proof (decompress_order r c m B out keep chk ow fs0 Hout Hc Hh) as HO.
+    rewrite Forall_forall in HO. apply HO. eapply exec_trace_incl; eauto.
+Qed.
+
+(* ---- histories ---- *)
+Lemma tag_eqb_eq a b : tag_eqb a b = true -> a = b.
+Proof.
+  destruct a, b; cbn; try discriminate; intros H;
+    repeat (apply andb_prop in H; destruct H as [H ?]);
+    repeat match goal with E : (_ =? _) = true |- _ => apply Z.eqb_eq in E; subst end; reflexivity.
+Qed.
+Lemma is_complete_true s t : is_complete s t = true -> s = Complete t.
+Proof. destruct s; cbn; try discriminate. intros H. apply tag_eqb_eq in H. now subst. Qed.
+
+Definition HInv (r : Z) (x : fsys) : Prop :=
+  (x PBin = Complete (Orig r) \/
+   exists c, x PCbin = Complete (Comp r c) /\ x PCh = Complete (Hdr r c)) /\
+  (x PCbin = Absent \/ exists c, x PCbin = Complete (Comp r c)) /\
+  (x PSBin = Absent \/ x PSBin = Complete (Orig r)) /\
+  present (x PMeta) = true.
+
+Lemma HInv_step r fs o f :
+  HInv r fs -> op_enabled r fs o = true ->
+  HInv r (final_fs (exec (op_steps r fs o) fs f)).
+Proof.
+  intros [I1 [I2 [I3 I4]]] En. destruct o as [c m B keep chk|c m B keep chk ow|c m B sd]; cbn [op_enabled] in En; cbn [op_steps].
+  - apply is_complete_true in En.
+    destruct (compress_atomic r c m B keep chk fs f En) as [A [Bq [C _]]].
+    cbn zeta in A, Bq, C. unfold HInv. split; [|split; [|split]].
+    + destruct Bq as [Bq|[_ [_ [Bc Bh]]]]; [left; exact Bq|right; eauto].
+    + destruct A as [A|A]; [rewrite A; exact I2|right; eauto].
+    + rewrite (C PSBin); [exact I3|unfold others; cbn; auto].
+    + rewrite (C PMeta); [exact I4|unfold others; cbn; auto].
+  - apply andb_prop in En. destruct En as [Ec Eh].
+    apply is_complete_true in Ec. apply is_complete_true in Eh.
+    destruct (decompress_atomic r c m B PBin keep chk ow fs f eq_refl Ec Eh) as [[D1 D2] _].
+    cbn zeta in D1, D2. unfold HInv. split; [|split; [|split]].
+    + destruct D1 as [[Dc Dh]|[_ [Db _]]]; [right; eauto|left; exact Db].
+    + destruct D1 as [[Dc Dh]|[_ [_ [Dc _]]]]; [right; eauto|left; exact Dc].
+    + rewrite (D2 PSBin); auto.
+    + rewrite (D2 PMeta); auto.
+  - apply andb_prop in En. destruct En as [Ec Eh].
+    apply is_complete_true in Ec. apply is_complete_true in Eh.
+    destruct (scratch_atomic r c m B sd fs f Ec Eh (fun _ => I4)) as [[S1 [S2 [S3 S4]]] _].
+    cbn zeta in S1, S2, S3, S4. unfold HInv. split; [|split; [|split]].
+    + right; eauto.
+    + right; eauto.
+    + destruct sd; cbn [scratch_target scratch_tmp] in *.
+      * destruct S3 as [S3|S3]; [rewrite S3; exact I3|right; exact S3].
+      * rewrite (S4 PSBin); auto.
+    + rewrite (S4 PMeta); [exact I4| | |]; destruct sd; reflexivity.
+Qed.
+
+Lemma history_safe r h : forall fs, HInv r fs -> HInv r (run_history r fs h).
+Proof.
+  induction h as [|[o f] h IH]; intros fs HI; cbn; [exact HI|].
+  apply IH. destruct (op_enabled r fs o) eqn:En; [apply HInv_step; assumption|exact HI].
+Qed.
